@@ -284,7 +284,7 @@ def readPairs : Nat → TType → TType → Nat → CR → Bytes → Out (TPairs
 end
 
 def read (t : TType) (s : CR) (bs : Bytes) : Out (TVal × CR × Bytes) :=
-  readVal (2 * bs.length + 2) t s bs
+  readVal (3 * bs.length + 3) t s bs
 
 -- The value a typed reader reconstructs: the key/value types of an empty map
 -- are not on the compact wire (`read_map_begin` reports `Stop`/`Stop`).
